@@ -256,7 +256,7 @@ impl Prop for C18 {
 			ast::gen_schema(rng, cfg)
 		};
 		let env = Env::build(&schema);
-		let vcfg = ValCfg { max_len: 1 + rng.usize(5), max_depth: 4, budget: 6 + rng.below(30) as i32 };
+		let vcfg = ValCfg { max_len: 1 + rng.usize(5), max_depth: 4, budget: 6 + rng.below(30) as i32, str_boost: 0 };
 		let v = val::gen_val(rng, &env, &schema, &vcfg);
 		let others = canonical_variants(rng, &schema);
 		Scn {
